@@ -107,7 +107,6 @@ class StreamProperty:
         res.cov['lines_compared'] = sum(len(c.lines) for c in cases)
         for c in cases[:3]:
             res.sample({'case': c.name, 'script': c.lines[:14], 'impl': c.impl[:14]})
-        self.extra_stats(cases, res)
         nviol = 0
         broken_corr = []
         for c in cases:
@@ -143,6 +142,7 @@ class StreamProperty:
                                   'meta': meta_json(c)},
                           no_input=True)
         res.cov['correspondence_mismatches'] = len(broken_corr)
+        self.extra_stats(cases, res)
         if not ok and not res.violations:
             res.violation('%s:proof' % self.pid.lower(), 'theorems of %s no longer check: %s' % (self.module, '; '.join(common.first_errors(log)) or log[-300:]),
                           replay={'broken': self.module, 'errors': common.first_errors(log), 'undischarged': [n for n, k in res.obligations if not k]},
